@@ -130,9 +130,16 @@ class World:
             self.sets.append(recv)
             return None
         if fn in ("mcs.__param_inheritance", "ParameterizedMetaclass._initialize_parameter", "mcs._initialize_parameter"):
-            # slot inheritance / naming of the new Parameter: it becomes owned by the class it was put on
-            tgt = args[0] if fn.startswith("ParameterizedMetaclass") else None
+            # slot inheritance of the new Parameter is abstract; _initialize_parameter also tells the Parameter its name (_set_names),
+            # __param_inheritance alone does not
+            if fn.endswith("_initialize_parameter") and len(args) >= 2 and isinstance(args[-1], Obj) and isinstance(args[-2], str):
+                args[-1].attrs["name"] = args[-2]
             return None
+        if fn.endswith("._set_names") and len(args) == 1 and isinstance(args[0], str):
+            recv = getattr(it, "current_receiver", None)
+            if isinstance(recv, Obj) and recv.attrs.get("__kind__") == "Parameter":
+                recv.attrs["name"] = args[0]
+                return None
         return NotImplemented
 
     def call(self, qual_cls, method, self_obj, args):
@@ -181,13 +188,13 @@ class World:
 
     def set_param(self, cname, name):
         p = self.new_param("%s@%s(new)" % (name, cname))
-        p.attrs["owner"], p.attrs["name"] = self.classes[cname], name
+        p.attrs["owner"], p.attrs["name"] = self.classes[cname], None          # a fresh Parameter does not know its name yet
         self.call(META, "__setattr__", self.classes[cname], [name, p])
         return p
 
     def add_param(self, cname, name):
         p = self.new_param("%s@%s(added)" % (name, cname))
-        p.attrs["owner"], p.attrs["name"] = self.classes[cname], name
+        p.attrs["owner"], p.attrs["name"] = self.classes[cname], None
         self.call(PARAMETERS, "add_parameter", self.classes[cname].attrs["param"], [name, p])
         return p
 
@@ -264,6 +271,12 @@ def model(ctx, depth, shape=None):
                     want = {m: w.lookup(w.classes[x], m) for m in w.names(w.classes[x])}
                     if set(got) != set(want):
                         bad.append((list(tr), "%s.param lists %s, attribute lookup finds %s" % (x, sorted(got), sorted(want))))
+                        break
+                    unnamed = [m for m in want if want[m].attrs.get("name") != m]
+                    if unnamed:
+                        m = unnamed[0]
+                        bad.append((list(tr), "the Parameter that governs %s.%s does not know its name (name=%r): instance values are stored and events sent under that name, so "
+                                              "watchers of %r never fire and .param.values() / repr fail" % (x, m, want[m].attrs.get("name"), m)))
                         break
                     wrong = [m for m in want if got[m] is not want[m]]
                     if wrong:
